@@ -4,6 +4,11 @@
 // the same single query gets from fresh caches (reset in this process; for a
 // sample also a fresh OS process: this binary re-executed with --extra child).
 //
+// Second kind of case (tc.go, tccase.go): histories of TransactionCache.Check /
+// CheckSign / GetTotalFee calls on wrapper objects created fresh per history,
+// next to the answers of a fresh wrapper, of the memo-free Transaction.Check /
+// CheckSign and (sampled) of a fresh OS process.
+//
 // No hook file in /repo: the unexported cache variables are reached through
 // go:linkname (purge = fresh caches, replacement by a small lru = tiny capacity).
 package main
